@@ -12,6 +12,7 @@ import (
 	"pgregory.net/rapid"
 	"reduction.dev/reduction/dkv"
 	"reduction.dev/reduction/dkv/recovery"
+	"reduction.dev/reduction/partitioning"
 	"reduction.dev/reduction/proto/snapshotpb"
 	"verifharness/hx"
 	"verifharness/refimpl"
@@ -43,6 +44,7 @@ type Stats struct {
 	NonIdentityAcks, Recoveries                                      int
 	Invocations                                                      int
 	Savepoints, SelfExits                                            int
+	BarriersBothSides, MaxKeyCalls                                   int
 }
 
 func buildData(p Program) (map[string][]Rec, map[string]int) {
@@ -336,6 +338,16 @@ func Run(p Program, c *hx.Case) (st Stats, err error) {
 	if err := checkPositions(w); err != nil {
 		return st, err
 	}
+	if st.Kills == 0 && st.JobRestarts == 0 && st.SelfExits == 0 {
+		n, err := CheckDelivery(w, data, p.Cfg.Groups)
+		if err != nil {
+			return st, err
+		}
+		st.BarriersBothSides = n
+	}
+	w.mu.Lock()
+	st.MaxKeyCalls = w.MaxKeyCalls
+	w.mu.Unlock()
 	st.Checkpoints = len(w.Snapshots())
 	w.H.mu.Lock()
 	st.Invocations = w.H.Invocations
@@ -353,6 +365,116 @@ func Run(p Program, c *hx.Case) (st Stats, err error) {
 		}
 	}
 	return st, nil
+}
+
+// CheckDelivery: C04 over the recorded operator streams of a failure-free run.
+// Every record is delivered exactly once, to the operator whose range holds
+// its key's group; records of one split and key arrive in split order; each
+// runner's watermarks are monotone, stay below the largest timestamp it ever
+// forwarded and never fall behind a record it delivered earlier in the same stream.
+func CheckDelivery(w *World, data map[string][]Rec, groups int) (barriersWithBothSides int, err error) {
+	w.mu.Lock()
+	defer w.mu.Unlock()
+	type rk struct {
+		split string
+		idx   int
+	}
+	seen := map[rk]string{}
+	n := len(w.Assembly)
+	if n == 0 {
+		return 0, hx.Errf("no deployment was recorded")
+	}
+	for opID, stream := range w.Delivered {
+		opIdx := -1
+		for i, id := range w.Assembly {
+			if id == opID {
+				opIdx = i
+			}
+		}
+		last := map[string]int{}       // split/key -> last Idx
+		maxTS := map[string]int64{}    // runner -> largest record timestamp delivered so far in this stream
+		lastWM := map[string]int64{}   // runner -> last watermark
+		recsBefore := map[string]int{} // runner -> records seen so far
+		for i, d := range stream {
+			switch d.Kind {
+			case "rec":
+				k := rk{d.Rec.Split, d.Rec.Idx}
+				if prev, dup := seen[k]; dup {
+					return 0, hx.Errf("record %d of split %s was delivered twice (to %s and to %s)", d.Rec.Idx, d.Rec.Split, prev, opID)
+				}
+				seen[k] = opID
+				g := refimpl.KeyGroup([]byte(d.Rec.Key), groups)
+				want := refimpl.RangeOf(g, groups, n)
+				ranges := partitioning.NewKeySpace(groups, n).KeyGroupRanges()
+				for ri, r := range ranges {
+					if g >= r.Start && g < r.End {
+						want = ri
+					}
+				}
+				if opIdx != want {
+					return 0, hx.Errf("record %d of split %s (key %q, group %d) was delivered to %s (range %d), the group belongs to range %d", d.Rec.Idx, d.Rec.Split, d.Rec.Key, g, opID, opIdx, want)
+				}
+				sk := d.Rec.Split + "/" + d.Rec.Key
+				if p, ok := last[sk]; ok && d.Rec.Idx < p {
+					return 0, hx.Errf("records of split %s with key %q reached %s out of order: %d after %d", d.Rec.Split, d.Rec.Key, opID, d.Rec.Idx, p)
+				}
+				last[sk] = d.Rec.Idx
+				maxTS[d.From] = max(maxTS[d.From], int64(d.Rec.Idx+1)*int64(time.Second))
+				recsBefore[d.From]++
+			case "wm":
+				if d.WM < lastWM[d.From] && lastWM[d.From] != 0 {
+					return 0, hx.Errf("watermarks of %s went back from %d to %d in the stream to %s", d.From, lastWM[d.From], d.WM, opID)
+				}
+				if recsBefore[d.From] > 0 && d.WM < maxTS[d.From]-1 {
+					return 0, hx.Errf("watermark %d of %s overtook nothing but lags: it is behind record timestamp %d delivered earlier in the same stream to %s (event time does not follow)", d.WM, d.From, maxTS[d.From], opID)
+				}
+				lastWM[d.From] = d.WM
+			case "barrier":
+				before, after := 0, 0
+				for j, e := range stream {
+					if e.From == d.From && e.Kind == "rec" {
+						if j < i {
+							before++
+						} else {
+							after++
+						}
+					}
+				}
+				if before > 0 && after > 0 {
+					barriersWithBothSides++
+				}
+			}
+		}
+	}
+	// global: no watermark of a runner reaches the largest timestamp it forwarded anywhere
+	globalMax := map[string]int64{}
+	for _, stream := range w.Delivered {
+		for _, d := range stream {
+			if d.Kind == "rec" {
+				globalMax[d.From] = max(globalMax[d.From], int64(d.Rec.Idx+1)*int64(time.Second))
+			}
+		}
+	}
+	for opID, stream := range w.Delivered {
+		for _, d := range stream {
+			if d.Kind == "wm" && globalMax[d.From] > 0 && d.WM >= globalMax[d.From] {
+				return 0, hx.Errf("watermark %d of %s (to %s) reached the largest event timestamp %d it forwarded", d.WM, d.From, opID, globalMax[d.From])
+			}
+		}
+	}
+	total := 0
+	for split, recs := range data {
+		total += len(recs)
+		for _, r := range recs {
+			if _, ok := seen[rk{split, r.Idx}]; !ok {
+				return 0, hx.Errf("record %d of split %s was never delivered to any operator", r.Idx, split)
+			}
+		}
+	}
+	if len(seen) != total {
+		return 0, hx.Errf("%d distinct records were delivered, the input has %d", len(seen), total)
+	}
+	return barriersWithBothSides, nil
 }
 
 // checkPositions: C16's generic clause over the recorded streams. For every
@@ -477,7 +599,7 @@ func GenProgram(rt *rapid.T, faults []string, maxFaults int) Program {
 		// the interesting shape: a completed (or pending) checkpoint, then a failure
 		a := rapid.IntRange(2*p.Cfg.Workers+2, max(2*p.Cfg.Workers+3, span/2)).Draw(rt, "tickat")
 		p.Faults[0] = Fault{At: a, Kind: "tick"}
-		p.Faults[1] = Fault{At: a + rapid.IntRange(1, max(2, span/2)).Draw(rt, "gap"), Kind: faults[len(faults)-2], Who: rapid.IntRange(0, 3).Draw(rt, "who2")}
+		p.Faults[1] = Fault{At: a + rapid.IntRange(1, max(2, span/2)).Draw(rt, "gap"), Kind: faults[max(0, len(faults)-2)], Who: rapid.IntRange(0, 3).Draw(rt, "who2")}
 	}
 	p.LatencyUs = rapid.SliceOfN(rapid.SampledFrom([]int{0, 0, 0, 50, 300}), 0, 6).Draw(rt, "latency")
 	return p
